@@ -43,7 +43,7 @@ SPEC = {
     "mandatory_probes": {"any": ["predicted_error", "fail_in_txn", "use_after_close", "predicted_2003", "predicted_90105"]},
 }
 
-HAZARDS = ["drop_database"]
+HAZARDS = ["drop_database", "unknown_db_ddl_in_txn"]
 
 
 def gen(rng: Any, prop: str, tier: str) -> dict[str, Any]:
@@ -231,6 +231,8 @@ def _failing(g: Gen, rng: Any, sid: str, hz: dict[str, bool], txn_owner: list[st
         elif r < 0.6:
             g.exec(sid, {"t": "use_db", "name": "DB9"}, cur=cur)
         elif r < 0.8:
+            if m.sessions[sid].get("txn") is not None and not hz["unknown_db_ddl_in_txn"]:
+                return  # known finding: DDL on an unknown database inside a writing transaction hits DuckDB's one-database-per-transaction limit
             g.exec(sid, {"t": "create_schema", "db": "DB9", "name": "S1"}, cur=cur)
         else:
             g.exec(sid, {"t": "insert", "ref": ["DB9", "S1", "T1"], "rows": [[1, "x"]]}, cur=cur)
